@@ -133,6 +133,8 @@ def children(t):
         return [x for x in t[2] if isinstance(x, tuple)]
     if k in ("withopt", "cached", "computation", "logged", "dswo", "dswdo"):
         return [t[1]]
+    if k == "dsref":
+        return []  # ("dsref", name): the dataset of that name defined elsewhere in the same build (self-references)
     if k == "ds":
         p = dsprops(t)
         out = list(p["params"])
